@@ -36,6 +36,7 @@ func runC06(c *report.Ctx) {
 	checkFailureHasBody(c)
 	c.Clause("3 first fault wins")
 	checkFirstFatalErrorLifetime(c)
+	checkCancelRearmed(c) // after a recovery the next fault must again be able to cancel the waiting handler
 	checkFirstFaultPrecedence(c)
 	c.Clause("4 launch failures record a cause")
 	checkLaunchFailures(c)
